@@ -125,7 +125,7 @@ def build(P):
         for ch in chunks(cs, 400):
             yield ("generator", ch)
 
-    C05 = dict(cases=c05_cases, model_is_oracle=("out", "exit", "files", "termination"), nontrivial=lambda c, r, m: True,
+    C05 = dict(cases=c05_cases, builds_quick=["normal", "san"], model_is_oracle=("out", "exit", "files", "termination"), nontrivial=lambda c, r, m: True,
                rule="every ordered (target type, source type) pair over INTEGER, REAL, BOOLEAN, CHAR, STRING (length 1 and longer), DATE, two enums, two pointer types, "
                     "two record types through each channel (variable, element, field, dereferenced pointer, BYVAL, BYREF, RETURN, first assignment), target printed before and "
                     "after; INPUT of 22 lines into every type; random typed programs with an injected ill-typed store; unit = one (channel, target, source) program")
@@ -390,7 +390,7 @@ def build(P):
                 return ["the attempt to write to constant K was not reported (exit %d)" % r.exit]
         return []
 
-    C08 = dict(cases=c08_cases, oracle=c08_oracle, nontrivial=lambda c, r, m: True,
+    C08 = dict(cases=c08_cases, builds_quick=["normal", "san"], oracle=c08_oracle, nontrivial=lambda c, r, m: True,
                rule="every literal type (INTEGER, negative INTEGER, REAL, BOOLEAN, CHAR, STRING) x every writing form (<-, FOR header, INPUT, READ, READFILE, GETRECORD, BYREF formal, "
                     "BYREF chain, BYREF formal of a function with INPUT, ^-dereference, re-DECLARE, re-CONSTANT) x both definition spellings, in file mode (must end in an error before "
                     "the sentinel) and as REPL histories with the constant echoed after the attempt (compared with the model); random programs threading constants through calls")
